@@ -43,9 +43,9 @@ Definition keymgmt_unmarshal_with (order : order_t) (s : list N) : res keymgmt :
     end
   end.
 
-Definition keymgmt_marshal (h : keymgmt) : list N :=
-  K_prot ++ [EQ] ++ S_mikey ++ [SEMI] ++ K_kuri ++ [EQ; DQ] ++ k_url h ++ [DQ; SEMI]
-  ++ K_data ++ [EQ; DQ] ++ b64_encode (mikey_marshal (k_msg h)) ++ [DQ].
+Definition keymgmt_kvitems (h : keymgmt) : list item :=
+  [(K_prot, VPlain S_mikey); (K_kuri, VQuoted (k_url h)); (K_data, VQuoted (b64_encode (mikey_marshal (k_msg h))))].
+Definition keymgmt_marshal (h : keymgmt) : list N := render_items [SEMI] (keymgmt_kvitems h).
 
 Definition enc_keymgmt (h : keymgmt) : list N := putl (k_url h) ++ enc_message (k_msg h).
 Definition dec_keymgmt (l : list N) : option (keymgmt * list N) :=
